@@ -264,11 +264,13 @@ pub struct Env<'a> {
     /// evaluate the non-mapped arguments of a map-each call once up front (even for zero
     /// elements) instead of once per element; values are identical, only the logs differ
     pub memo: bool,
+    /// evaluate every operand of `and` / `or` even while logging (no short-circuit emulation)
+    pub eager: bool,
 }
 
 impl<'a> Env<'a> {
     pub fn new(uni: &'a Uni, ctx: &'a MCtx) -> Self {
-        Env { uni, ctx, lists: None, log: None, qlog: None, memo: false }
+        Env { uni, ctx, lists: None, log: None, qlog: None, memo: false, eager: false }
     }
 }
 
@@ -586,7 +588,7 @@ impl<'a> Env<'a> {
                 // NB: evaluation order / short-circuit is not part of the value
                 let vals: Vec<R> = match op {
                     // emulate short circuit only for the *call log* (values are unaffected)
-                    LOp::And | LOp::Or if self.log.is_some() || self.qlog.is_some() => {
+                    LOp::And | LOp::Or if !self.eager && (self.log.is_some() || self.qlog.is_some()) => {
                         let mut vals = Vec::new();
                         for i in items {
                             let r = self.eval(i);
